@@ -264,10 +264,25 @@ pub fn originals(rng: &mut Rng, k: usize, size: usize) -> Vec<Vec<u8>> {
     // (zero runs, constant bytes, repeated shards, small big-endian integers) -
     // data that uniformly random bytes would never produce
     let mode = rng.below(16);
+    // mode 3: whole 64-byte blocks are zero at offsets most shards share
+    // (zeroed headers, sparse files) with data before and after them
+    let blocks = size / 64;
+    let zero_blocks: Vec<usize> = if mode == 3 && blocks >= 2 {
+        (0..blocks).filter(|_| rng.chance(1, 3)).collect()
+    } else {
+        Vec::new()
+    };
     let mut v: Vec<Vec<u8>> = Vec::with_capacity(k);
     for i in 0..k {
         let mut s = rng.bytes(size);
         match mode {
+            3 => {
+                if rng.chance(7, 8) {
+                    for b in &zero_blocks {
+                        s[b * 64..(b + 1) * 64].fill(0);
+                    }
+                }
+            }
             0 | 1 => {
                 for b in s.iter_mut() {
                     if rng.chance(3, 4) {
